@@ -1,6 +1,8 @@
 //! Verification harness: generates inputs, runs selene (linked from /repo's working tree) on them
 //! and writes Gallina case files that coqc evaluates against the Coq models and specifications.
 mod c06;
+mod c08;
+mod genfilter;
 mod c15;
 mod c16;
 mod cases;
@@ -54,6 +56,7 @@ fn main() {
     std::panic::set_hook(Box::new(|_| {}));
     let a = parse_args();
     match a.cmd.as_str() {
+        "c08" => c08::generate(a.seed, a.n, a.thorough).write(&a.out, a.shards, a.only),
         "c15" => c15::generate(a.seed, a.n, a.thorough).write(&a.out, a.shards, a.only),
         "c06" => c06::generate(a.seed, a.n, a.thorough).write(&a.out, a.shards, a.only),
         "c16" => c16::generate(a.seed, a.n, a.thorough).write(&a.out, a.shards, a.only),
